@@ -36,7 +36,18 @@ RULE = ("parse level: for each of the 25 classes, every valid skeleton (minimal,
         "batch framing corruption, wrong isBinary; decoder-specific values (UBJSON typed arrays -> numpy.ndarray, high-precision numbers, "
         "CBOR tags/undefined/sets/bignums, MsgPack ext types/timestamps) as real octets at every position and under every known option "
         "key of the full/payload skeletons; FlatBuffers serializer: mutations/truncations of its own encodings and noise, exception type "
-        "only. Non-trivial = the monitored call returned or raised and was classified; "
+        "only. THOROUGH adds: every PAIR of places (positions and option keys, options also deleted) of the full/payload/wildcard/"
+        "revocation skeletons x a 26-value corpus squared, triples inside the payload-transparency unit (enc_algo, enc_key, enc_serializer, "
+        "payload) and 2.4 M random 2-5-place replacements; URI strings up to length 7 exhaustively in the six modes plus 1.6 M random/long "
+        "ones (to 5000 chars, unicode whitespace/digits, controls); per serializer variant and per representative message of every class "
+        "(6 skeleton kinds + 6 rich messages): at EVERY offset all 255 values, truncation, 8 insertions, deletions of 1/2/4/8, duplication, swap, "
+        "a 12x12 grid of the format's structural octets on every adjacent pair, random 2-offset edits; ~380 raw constructs only one format can "
+        "express (JSON big ints/NaN/NUL-prefixed binaries/bad escapes, MsgPack ext/timestamp/bin/str families, CBOR simple values/half floats/"
+        "bignums/decimal fractions/tags 0-5,24,30,35-37,258-261,shareable+cyclic/indefinite lengths, UBJSON-BJData typed and N-D containers/"
+        "high precision/no-op) spliced in at every position and option value; batch framing: all 255 values at every octet of every length "
+        "prefix / delimiter, prefix arithmetic, delimiter insertion at every offset; nesting swept over ~75 depths to 10^6 in 5 shapes and inside "
+        "args/kwargs/options/extra; 8 streams of random, token and multi-edit noise (11.5 M); FlatBuffers at every offset (all values, 200 "
+        "2-offset edits, 24 offset words). Non-trivial = the monitored call returned or raised and was classified; "
         "distinct = (class, place, input label, skeleton) resp. hash of the octets.")
 ASSUMPTIONS = [
     "allowed exceptions: autobahn.wamp.exception.ProtocolError and InvalidUriError (siblings below wamp.exception.Error) and their subclasses; anything else escaping parse()/unserialize()/check_or_raise_*() is a violation",
@@ -47,6 +58,9 @@ ASSUMPTIONS = [
     "an exception is attributed to the first option/position whose neutralisation (delete the key / put a valid value) makes the exception disappear",
     "FlatBuffers: only the exception type of unserialize() and the type of the returned objects are monitored (messages are lazy views; no independent decoder, no must-reject / re-marshal judgement)",
     "numpy.ndarray / Decimal / cbor2 tag / msgpack ExtType values in the parse-level corpus are those the UBJSON / CBOR / MsgPack decoders used by the library's serializers deliver for typed arrays, high-precision numbers, tags and ext types (also sent as real octets in the serializer workload)",
+    "thorough tier: at most 400000 distinct non-trivial keys are kept per shard (memory); cases beyond are counted in nontrivial_beyond_cap, so distinct_nontrivial is a lower bound there",
+    "thorough workers run under an 8 GiB address-space limit: a third-party decoder allocating gigabytes for a few octets (UBJSON typed container of nulls/bools with a 32-bit count) ends in MemoryError -> ProtocolError; time and memory consumption are not judged by this property; such constructs are not generated on purpose",
+    "JSON object keys that start with \\0 are not subjected to the binary convention by the reference decoder (unspecified; the library leaves them as strings)",
     "run without -O: under -O the AssertionError findings turn into silent acceptance (noted, not executed)",
 ]
 DECIDING = {
@@ -56,7 +70,7 @@ DECIDING = {
     "parse_accepted": 2000,
     "marshal_compared": 2000,
     "must_reject_inputs": 5000,
-    "uri_strings_judged": 50000,
+    "uri_strings_judged": lambda tier: 50000 if tier == "quick" else 50000000,
     "uri_rejections_agreed": 10000,
     "unserialize_calls": 20000,
     "unserialize_rejected": 5000,
@@ -66,6 +80,15 @@ DECIDING = {
     "typecodes_judged": 100,
     "decoder_values_judged": 2000,
     "decoder_value_kinds": 15,
+    # thorough-only depth (absent = 0 in quick)
+    "pair_cases": lambda tier: 0 if tier == "quick" else 500000,
+    "triple_cases": lambda tier: 0 if tier == "quick" else 100000,
+    "multi_cases": lambda tier: 0 if tier == "quick" else 1000000,
+    "deep_mutations": lambda tier: 0 if tier == "quick" else 10000000,
+    "raw_constructs_judged": lambda tier: 0 if tier == "quick" else 100000,
+    "random_octet_cases": lambda tier: 0 if tier == "quick" else 5000000,
+    "nesting_in_message": lambda tier: 0 if tier == "quick" else 2000,
+    "flatbuffers_calls": lambda tier: 10000 if tier == "quick" else 1000000,
 }
 
 # ------------------------------------------------------------------------------------------------
@@ -1157,11 +1180,11 @@ class Monitor:
             out.append((place[1], chunk[:i], chunk[i + len(ph):]))
         return out
 
-    GRID = {
-        "json": b'[]{}",:\\0 9-.\x18\x00\xfftn',
-        "msgpack": bytes([0x00, 0x7f, 0x80, 0x8f, 0x90, 0x9f, 0xa0, 0xbf, 0xc0, 0xc1, 0xc4, 0xc7, 0xcf, 0xd3, 0xd9, 0xdc, 0xde, 0xff]),
-        "cbor": bytes([0x00, 0x17, 0x18, 0x1b, 0x20, 0x40, 0x5f, 0x60, 0x7f, 0x80, 0x9f, 0xa0, 0xbf, 0xc2, 0xd8, 0xf6, 0xf7, 0xff]),
-        "ubjson": b"[]{}$#SUilLZTFNCHdB\x00\xff",
+    GRID = {     # structural octets of each format: a 12 x 12 grid is applied to every pair of adjacent offsets
+        "json": b'[]{}",:\\0-\x18\x00',
+        "msgpack": bytes([0x00, 0x80, 0x90, 0x9f, 0xa0, 0xc0, 0xc1, 0xc4, 0xcf, 0xd9, 0xdc, 0xff]),
+        "cbor": bytes([0x00, 0x18, 0x1b, 0x40, 0x5f, 0x60, 0x80, 0x9f, 0xa0, 0xd8, 0xf7, 0xff]),
+        "ubjson": b"[]{}$#SUlZT\x00",
     }
 
     def mutants(self, data, rng, unit, part, parts, openers, grid=b""):
@@ -1410,7 +1433,7 @@ class Monitor:
                         for b in range(256):
                             if b != data[i]:
                                 self.fbs_case(ser, sid, data[:i] + bytes([b]) + data[i + 1:], "mutation@%s/%s" % (spec.name, sname))
-                        for _k in range(60):
+                        for _k in range(200):
                             m = bytearray(data)
                             m[i] = rng.choice((0x00, 0xff, 0x7f, 0x80, data[i] ^ 0x01, rng.randrange(256)))
                             j = rng.randrange(len(data))
@@ -1569,7 +1592,10 @@ MANIFEST_ENTRY = {
              "valid encodings of every class, short exhaustive and random octet strings, nesting to depth 10^5, corrupted batch "
              "framing, and the values only one decoder produces (UBJSON typed arrays = numpy arrays, CBOR tags/undefined/sets, "
              "MsgPack ext types) as real octets at every position and option; the FlatBuffers serializer receives mutated own "
-             "encodings and noise (exception type only). Monitored: only ProtocolError/InvalidUriError may escape; nothing of the must-reject class may yield a "
+             "encodings and noise (exception type only). The thorough tier adds all pairs of simultaneously replaced places, URIs to length 7, "
+             "every single-octet value at every offset plus adjacent-pair grids of representative messages per class and format, ~380 "
+             "format-specific raw constructs spliced into every place, framing corruption at every prefix/delimiter octet, dense nesting "
+             "sweeps and several independent random streams (~1.4e8 evaluations). Monitored: only ProtocolError/InvalidUriError may escape; nothing of the must-reject class may yield a "
              "message; an accepted message must re-marshal to an equivalent list. Held = no such event on the executions listed in "
              "the evidence; not a proof."),
     "note": ("trusts vf/wamp_grammar.py (must-reject oracle written from the WAMP spec, cross-checked against the code at start-up; "
